@@ -347,6 +347,15 @@ class C12(Prop):
             P = np.linalg.inv(A @ AT)
             kw = {"scale_tril": A}
         else:
+            # any square root of the precision is a legal prec_sqrt, not only the lower Cholesky factor: columns
+            # reversed (a dense / upper-triangular-looking root) and a negated column in two thirds of the cases
+            variant = int(abs(float(locv.sum())) * 4) % 3
+            if variant >= 1:
+                A = A[..., ::-1].copy()
+            if variant == 2:
+                A[..., 0] = -A[..., 0]
+            AT = np.swapaxes(A, -1, -2)
+            stt.count(f"prec_sqrt-variant:{variant}")
             P = A @ AT
             kw = {"prec_sqrt": A}
         if loc == "mean":
